@@ -21,7 +21,7 @@
    per kind (int / bool); a block's locals disappear at its end and their numbers and slots are
    reused. *)
 From Coq Require Import ZArith List Bool Lia String.
-From HidV Require Import Machine GenTables OpTables LowerBoolModel.
+From HidV Require Import Machine GenTables OpTables DecimalSpec LowerBoolModel.
 Import ListNotations.
 Open Scope Z_scope.
 
@@ -30,6 +30,11 @@ Inductive wexpr :=
 | WrLit (z : Z)                    (* a byte literal that is not a character literal *)
 | WrChar (c : Z)                   (* 'c' *)
 | WrByte (o : iopd).               (* (o is byte) *)
+(* what happens to the result of a call *)
+Inductive dest :=
+| DNone                            (* f(args);                  (expression statement) *)
+| DDecl                            (* int x = f(args);          x becomes the next int local *)
+| DAssign (i : nat).               (* xi = f(args); *)
 Inductive stmt :=
 | SDeclI (o : iopd)               (* int x = o;   x becomes the next int local *)
 | SAssignI (i : nat) (o : iopd)   (* xi = o;  (xi op= e is xi = xi op e) *)
@@ -37,11 +42,17 @@ Inductive stmt :=
 | SAssignB (j : nat) (e : bexpr)
 | SWrite (x : wexpr)
 | SWriteln
+| SWriteI (ln : bool) (o : iopd)  (* write(o) / writeln(o) for an int: the library routine write_int *)
+| SWriteB (ln : bool) (e : bexpr) (* write(e) / writeln(e) for a bool: write_bool *)
 | SIf (c : bexpr) (s1 s2 : stmts)
 | SWhile (c : bexpr) (body cont : stmts)     (* LoopBlock; cont is the `for` continuation *)
 | SBlock (ss : stmts)
 | SBreak
 | SContinue
+| SDeclDiv (op : src_arith) (a b : iopd)             (* int x = a / b;  int x = a % b;  (a, b without / %) *)
+| SAssignDiv (i : nat) (op : src_arith) (a b : iopd) (* xi = a / b;  xi /= b is xi = xi / b *)
+| SCall (d : dest) (f : nat) (args : list iopd)      (* a call of the f-th function of the program *)
+| SReturn (r : option iopd)                          (* return;  return o; *)
 with stmts := SNil | SCons (s : stmt) (ss : stmts).
 
 (* ---------- self.local_vars / self.stack for the fragment ---------- *)
@@ -88,6 +99,77 @@ Definition lower_write (S : senv) (x : wexpr) : list aline :=
             end
   end.
 
+(* eval_func_call for a library routine taking one argument (write of an int / a bool):
+     end_call = add_label('end_call');  offset = self.stack.offset
+     reserve_word(); set(end_call)                     swso [fp], -(top+w), end_call_N
+     push_expr(r1, arg)                                the argument, below the return address
+     add [fp], [fp], -offset;  goto(routine);  end_call_N:  add [fp], [fp], offset;  pop
+   The label is allocated BEFORE the argument's labels. *)
+Definition after_ra (S : senv) : senv := mksenv (ioffs S) (boffs S) (ws S) (top S + ws S).
+Definition call_tail (S : senv) (ec : label) (f : stdlab) (ln : bool) : list aline :=
+  [AInstr (AArith Aadd RFp (SReg RFp) (SLit (- top S))); AInstr (AJump (SStd f)); AInstr AHaltI;
+   ALabel ec; AInstr (AArith Aadd RFp (SReg RFp) (SLit (top S)))]
+  ++ (if ln then [AInstr (AYield (SChar 10))] else []).           (* writeln: then yield '\n' *)
+Definition push_ra (S : senv) (ec : label) : aline :=
+  AInstr (ASwso (SReg RFp) (SLit (- (top S + ws S))) (SLab ec)).
+(* len(str(max_signed + 1)): the longest decimal representation of an int *)
+Definition max_digits (w : Z) : Z := ndigits (2 ^ (8 * w - 1)).
+
+(* ---------- division in a checked build (arith_op_reg_arg) ----------
+     j div_allowed_N;  hne right, 0;  j division_by_zero;  halt;  div_allowed_N:  div|mod r, left, right
+   eval_expr's BinaryArithmeticOp case around it is the one of eval_opd (compare_operands are its
+   first three lines); the label is allocated after the operands are lowered *)
+Definition div_guard (da : label) (rhs : sym) : list aline :=
+  [AInstr (AJump (SLab da)); AInstr (AHc Cne rhs (SLit 0)); AInstr (AJump (SStd LibDivZero)); AInstr AHaltI;
+   ALabel da].
+Definition eval_div (E : env) (top : Z) (r_out : reg) (op : src_arith) (a b : iopd) (keep : bool) (da : label)
+  : list aline * bubble :=
+  let '(c, lhs, rhs) := compare_operands (with_top E top) a b in
+  finish_opd E top r_out keep (c ++ div_guard da rhs ++ [AInstr (AArith (arith_instr op) r_out lhs rhs)]).
+(* Declaration: push_expr -> eval_expr(r1, e, keep=True), the bubble is already pushed *)
+Definition decl_div (S : senv) (op : src_arith) (a b : iopd) (da : label) : list aline :=
+  fst (eval_div (env_of S) (top S) R1 op a b true da).
+(* Assignment: get_expr_value(r1, e) = State(r1); Indirect.set *)
+Definition assign_div (S : senv) (i : nat) (op : src_arith) (a b : iopd) (da : label) : list aline :=
+  fst (eval_div (env_of S) (top S) R1 op a b false da)
+  ++ [AInstr (ASwso (SReg RFp) (SLit (- nth i (ioffs S) 0)) (SReg R1))].
+
+(* ---------- eval_func_call for a function of the program ----------
+     end_call = add_label('end_call');  offset = self.stack.offset
+     reserve_word(); set(end_call)                     swso [fp], -(top+w), end_call_N
+     for arg in args: push_expr(r1, arg)               one word each, below the return address
+     add [fp], [fp], -offset;  goto(func_f_0);  end_call_N:  add [fp], [fp], offset
+     pop(bubble);  return reserve_type(ret_type)       the result is where the return address was
+   Declaration: the bubble is the new local (no code).  Assignment: get_expr_value(r1, call) =
+   `lwso [r1], [fp], -(top+w)`, then Indirect.set.  Expression statement: popped (no code). *)
+Fixpoint push_args (S : senv) (args : list iopd) : list aline :=
+  match args with
+  | [] => []
+  | o :: r => decl_int S o ++ push_args (after_ra S) r
+  end.
+Definition func_label (f : nat) : label := (LFunc f, 0%nat).
+Definition call_seq (S : senv) (ec : label) (f : nat) : list aline :=
+  [AInstr (AArith Aadd RFp (SReg RFp) (SLit (- top S))); AInstr (AJump (SLab (func_label f))); AInstr AHaltI;
+   ALabel ec; AInstr (AArith Aadd RFp (SReg RFp) (SLit (top S)))].
+Definition lower_call (S : senv) (ec : label) (d : dest) (f : nat) (args : list iopd) : list aline :=
+  [push_ra S ec] ++ push_args (after_ra S) args ++ call_seq S ec f ++
+  match d with
+  | DAssign i => [AInstr (ALwso R1 (SReg RFp) (SLit (- (top S + ws S))));
+                  AInstr (ASwso (SReg RFp) (SLit (- nth i (ioffs S) 0)) (SReg R1))]
+  | _ => []
+  end.
+(* ReturnStatement: retval = get_expr_value(r0, e); ra = return_address.get(r1); the value goes to
+   the callee's slot 0 (where the return address was); goto(ra) *)
+Definition lower_return (S : senv) (r : option iopd) : list aline :=
+  match r with
+  | None => [AInstr (ALwso R1 (SReg RFp) (SLit (- ws S))); AInstr (AJump (SReg R1)); AInstr AHaltI]
+  | Some o =>
+      let (c0, bub) := eval_opd (env_of S) (top S) R0 o false in
+      let (c1, v) := pop_value R0 bub in
+      c0 ++ c1 ++ [AInstr (ALwso R1 (SReg RFp) (SLit (- ws S))); AInstr (ASwso (SReg RFp) (SLit (- ws S)) v);
+                   AInstr (AJump (SReg R1)); AInstr AHaltI]
+  end.
+
 (* ---------- gen_stmts / gen_block ---------- *)
 (* li = self.loop_info[-1]: (continue label, break label).  Result: code, environment after the
    statement, label state, exited (gen_stmts returned early on break / continue). *)
@@ -100,6 +182,13 @@ Fixpoint lower_stmt (S : senv) (li : option (label * label)) (s : stmt) (st : ls
   | SAssignB j e => let (c, st') := assign_bool (env_of S) (nth j (boffs S) 0) e st in (c, S, st', false)
   | SWrite x => (lower_write S x, S, st, false)
   | SWriteln => ([AInstr (AYield (SChar 10))], S, st, false)
+  | SWriteI ln o =>
+      let (ec, st1) := add_label LEndCall st in
+      ([push_ra S ec] ++ decl_int (after_ra S) o ++ call_tail S ec LibWriteInt ln, S, st1, false)
+  | SWriteB ln e =>
+      let (ec, st1) := add_label LEndCall st in
+      let (c, st2) := declare_bool (env_of (after_ra S)) e st1 in
+      ([push_ra S ec] ++ c ++ call_tail S ec LibWriteBool ln, S, st2, false)
   | SIf c s1 s2 =>
       let (else_label, st1) := add_label LElse st in
       let (end_else, st2) := add_label LEndElse st1 in
@@ -119,6 +208,12 @@ Fixpoint lower_stmt (S : senv) (li : option (label * label)) (s : stmt) (st : ls
   | SBlock ss => let '(c, _, st', _) := lower_stmts S li ss st in (c, S, st', false)
   | SBreak => (match li with Some (_, lb) => goto lb | None => [] end, S, st, true)
   | SContinue => (match li with Some (lc, _) => goto lc | None => [] end, S, st, true)
+  | SDeclDiv op a b => let (da, st1) := add_label LDivAllowed st in (decl_div S op a b da, push_int S, st1, false)
+  | SAssignDiv i op a b => let (da, st1) := add_label LDivAllowed st in (assign_div S i op a b da, S, st1, false)
+  | SCall d f args =>
+      let (ec, st1) := add_label LEndCall st in
+      (lower_call S ec d f args, match d with DDecl => push_int S | _ => S end, st1, false)
+  | SReturn r => (lower_return S r, S, st, true)
   end
 with lower_stmts (S : senv) (li : option (label * label)) (ss : stmts) (st : lstate)
   : list aline * senv * lstate * bool :=
@@ -143,26 +238,134 @@ Definition is_you_senv (w : Z) (nparams : nat) : senv :=
 (* ---------- the maximum frame offset the lowering of a statement list reaches ---------- *)
 Definition zmax := Z.max.
 Definition need_int (S : senv) (o : iopd) (keep : bool) : Z := top S + Z.of_nat (temps o keep) * ws S.
+Definition need_bool_decl (S : senv) (e : bexpr) : Z * senv :=
+  (* a BooleanOp is lowered with its result byte already reserved; anything else is evaluated
+     first and the byte is pushed afterwards *)
+  (match e with
+   | BCmp _ _ _ | BAnd _ _ | BOr _ _ => top S + 1 + Z.of_nat (temps_b e) * ws S
+   | _ => zmax (top S + Z.of_nat (temps_b e) * ws S) (top S + 1)
+   end, push_bool S).
+Fixpoint need_args (S : senv) (args : list iopd) : Z :=
+  match args with
+  | [] => top S
+  | o :: r => zmax (zmax (need_int S o true) (top S + ws S)) (need_args (after_ra S) r)
+  end.
 Fixpoint need_stmt (S : senv) (s : stmt) : Z * senv :=
   match s with
   | SDeclI o => (zmax (need_int S o true) (top S + ws S), push_int S)
   | SAssignI _ o => (need_int S o false, S)
-  | SDeclB e =>
-      (* a BooleanOp is lowered with its result byte already reserved; anything else is evaluated
-         first and the byte is pushed afterwards *)
-      (match e with
-       | BCmp _ _ _ | BAnd _ _ | BOr _ _ => top S + 1 + Z.of_nat (temps_b e) * ws S
-       | _ => zmax (top S + Z.of_nat (temps_b e) * ws S) (top S + 1)
-       end, push_bool S)
+  | SDeclB e => need_bool_decl S e
   | SAssignB _ e => (top S + Z.of_nat (temps_b e) * ws S, S)
   | SWrite (WrByte o) => (need_int S o false, S)
   | SWrite _ | SWriteln | SBreak | SContinue => (top S, S)
+  | SWriteI _ o =>
+      (* the argument below the return address; write_int builds its digits downwards from just
+         below ITS return address, possibly past the argument word (checkpoints.update) *)
+      (zmax (zmax (need_int (after_ra S) o true) (top S + 2 * ws S))
+            (top S + 2 * ws S + Z.max 0 (max_digits (ws S) - ws S)), S)
+  | SWriteB _ e => (fst (need_bool_decl (after_ra S) e), S)
   | SIf c s1 s2 => (zmax (top S + Z.of_nat (temps_b c) * ws S) (zmax (need_stmts S s1) (need_stmts S s2)), S)
   | SWhile c b k => (zmax (top S + Z.of_nat (temps_b c) * ws S) (zmax (need_stmts S b) (need_stmts S k)), S)
   | SBlock ss => (need_stmts S ss, S)
+  | SDeclDiv op a b => (zmax (need_int S (OArith op a b) true) (top S + ws S), push_int S)
+  | SAssignDiv _ op a b => (need_int S (OArith op a b) false, S)
+  | SCall d _ args => (zmax (top S + ws S) (need_args (after_ra S) args), match d with DDecl => push_int S | _ => S end)
+  | SReturn (Some o) => (need_int S o false, S)
+  | SReturn None => (top S, S)
   end
 with need_stmts (S : senv) (ss : stmts) : Z :=
   match ss with
   | SNil => top S
   | SCons s r => let (n, S1) := need_stmt S s in zmax n (need_stmts S1 r)
   end.
+
+(* ================================================================================= *)
+(* functions and whole programs                                                       *)
+(* ================================================================================= *)
+(* a function `int|empty f(int a0, .., int a(n-1)) { body }`; the body is the CHECKED tree, which
+   ends with the `return;` the type checker appends when the end of the body is reachable *)
+Record fundef := mkfun { fn_params : nat; fn_body : stmts }.
+Definition fun_need (w : Z) (fd : fundef) : Z := need_stmts (is_you_senv w (fn_params fd)) (fn_body fd).
+
+(* gen_func: label, entry stack guard (checked build), body *)
+Definition lower_fun (w : Z) (f : nat) (fd : fundef) (st : lstate) : list aline * lstate :=
+  let (no, st1) := add_label LNoOverflow st in
+  let S := is_you_senv w (fn_params fd) in
+  let '(c, _, st2, _) := lower_stmts S None (fn_body fd) st1 in
+  ([ALabel (func_label f); AInstr (AJump (SLab no)); AInstr (AArith Asub R1 (SReg RFp) (SReg RAp));
+    AInstr (AHc Cgeu (SReg R1) (SLit (fun_need w fd))); AInstr (AJump (SStd LibStackOverflow)); AInstr AHaltI;
+    ALabel no] ++ c, st2).
+
+(* label_for_func / make_funcs: a function is generated when it is first referenced, in FIFO
+   order (appendleft / pop).  References are made while code is generated, so calls after a
+   statement that exits (not generated) do not count. *)
+Definition exits (s : stmt) : bool := match s with SBreak | SContinue | SReturn _ => true | _ => false end.
+Fixpoint calls_stmt (s : stmt) : list nat :=
+  match s with
+  | SCall _ f _ => [f]
+  | SIf _ s1 s2 => calls_stmts s1 ++ calls_stmts s2
+  | SWhile _ b k => calls_stmts b ++ calls_stmts k
+  | SBlock ss => calls_stmts ss
+  | _ => []
+  end
+with calls_stmts (ss : stmts) : list nat :=
+  match ss with
+  | SNil => []
+  | SCons s r => calls_stmt s ++ (if exits s then [] else calls_stmts r)
+  end.
+Fixpoint add_new (seen new : list nat) : list nat :=
+  match new with
+  | [] => seen
+  | f :: r => add_new (if existsb (Nat.eqb f) seen then seen else seen ++ [f]) r
+  end.
+Fixpoint gen_order (fuel : nat) (funs : list fundef) (seen : list nat) (k : nat) : list nat :=
+  match fuel with
+  | O => seen
+  | S fuel' =>
+      match nth_error seen k with
+      | None => seen
+      | Some f =>
+          let cs := match nth_error funs f with Some fd => calls_stmts (fn_body fd) | None => [] end in
+          gen_order fuel' funs (add_new seen cs) (S k)
+      end
+  end.
+Definition program_order (funs : list fundef) : list nat := gen_order (S (List.length funs)) funs [0%nat] 0.
+
+Fixpoint lower_funs (w : Z) (funs : list fundef) (ord : list nat) (st : lstate) : list aline :=
+  match ord with
+  | [] => []
+  | f :: r =>
+      match nth_error funs f with
+      | Some fd => let (c, st1) := lower_fun w f fd st in c ++ lower_funs w funs r st1
+      | None => []
+      end
+  end.
+(* the function labels func_<name>_0 are taken from the start *)
+Definition st_init : lstate := fun n => match n with LFunc _ => 1%nat | _ => 0%nat end.
+(* the code section up to the runtime library; function 0 is the entry point @is_you *)
+Definition lower_program (w : Z) (funs : list fundef) : list aline :=
+  lower_funs w funs (program_order funs) st_init.
+
+(* gen_lines, `%section state`: ap, fp, r0, r1, r2, the stack (stack_size words), the entry
+   arguments (last parameter first), the return address of the entry point *)
+Inductive dline :=
+| DLab (name : string)                 (* name: *)
+| DWordSym (name val : string)         (* name: .word val   (name may be empty) *)
+| DZeroW (n : Z)                       (* .zero <n>w *)
+| DArg (name : string).                (* .arg name word *)
+Open Scope string_scope.
+Definition param_name (i : nat) : string := "a" ++ dec (Z.of_nat i).
+Definition state_section (stack_size : Z) (nparams : nat) : list dline :=
+  [DWordSym "ap" "stack_start"; DWordSym "fp" "stack_end"; DWordSym "r0" "0"; DWordSym "r1" "0"; DWordSym "r2" "0";
+   DLab "stack_start"; DZeroW stack_size]
+  ++ map (fun i => DArg (param_name i)) (rev (seq 0 nparams))
+  ++ [DWordSym "" "all_is_win"; DLab "stack_end"].
+Definition print_dline (d : dline) : string :=
+  match d with
+  | DLab n => n ++ ":"
+  | DWordSym "" v => ".word " ++ v
+  | DWordSym n v => n ++ ": .word " ++ v
+  | DZeroW n => ".zero " ++ dec n ++ "w"
+  | DArg n => ".arg " ++ n ++ " word"
+  end.
+Close Scope string_scope.
